@@ -494,7 +494,30 @@ def rule_key_read_one_way(ctx: Ctx, rep: Report) -> None:
     rep.floor(rule, 2)
 
 
+def rule_key_lengths_admitted(ctx: Ctx, rep: Report) -> None:
+    """C12.key_lengths_admitted: `_sec_from_key` reads 32 octets as a *private* key
+    because `_sec_from_pub_key` refuses them: the two functions divide the
+    spellings of a key between them. No answer of `_sec_from_pub_key` is given
+    under a test that the octets are 32 long -- an x-only reading there makes
+    the same key name two output keys by spelling, and a control block carry
+    the private key."""
+    rule = "C12.key_lengths_admitted"
+    fi = ctx.func("btclib.to_pub_key._sec_from_pub_key")
+    g = ctx.cfg(fi)
+    rets = sorted((r for r in own_nodes(fi.node) if isinstance(r, ast.Return)), key=lambda r: r.lineno)
+    n = 0
+    for r in rets:
+        facts = [(t, pol) for t, pol in g.facts_at_ast(r)]
+        bad = [t for t, pol in facts if pol and "len(" in t and "== 32" in t.replace("0x20", "32")]
+        n += 1
+        rep.ob(rule, f"_sec_from_pub_key:return@L{r.lineno - fi.node.lineno}", not bad, fi.where(r), "not an answer for 32 octets" if not bad else
+               f"answers under `{bad[0]}`: 32 octets are a private key to `_sec_from_key`, and now a public one here")
+    rep.floor(rule, 2)
+
+
 RULES = [
+    ("C12.key_lengths_admitted", rule_key_lengths_admitted),
+
     ("C12.key_read_one_way", rule_key_read_one_way),
 
     ("C12.scalar_validated_before_reduction", rule_scalar_validated_before_reduction),
